@@ -222,6 +222,7 @@ def _worker_chunk(mname: str, seed: int, tier: str, indices, want_digests: bool)
                 agg["collected"].setdefault(k, set()).update(v)
             if r["status"] == "inconclusive":
                 agg["inconclusive"] += 1
+                agg["probes"]["inconclusive: " + str(r.get("error", ""))[:70]] += 1
             elif r["status"] == "harness_error":
                 agg["harness_errors"].append((i, r["error"]))
             if r["nontrivial"] and r["case_key"] is not None:
